@@ -121,6 +121,14 @@ theorem Sim.skip (hc : Conforms ρ abs) (n : Nat) : Sim abs (skip n : M ρ ε Un
     simp only [h1]
     exact ⟨r', rfl, h2⟩
 
+theorem Sim.subM (a b : Nat) : Sim abs (subM a b : M ρ ε Nat) (subM a b) := by
+  constructor
+  intro r
+  unfold Rl2tp.subM
+  by_cases h : b ≤ a
+  · simp only [h, if_true]; exact ⟨r, rfl, rfl⟩
+  · simp only [h, if_false]
+
 theorem Sim.readBytes (hc : Conforms ρ abs) (n : Nat) (e : ε) : Sim abs (readBytes n e : M ρ ε Bytes) (readBytes n e) := by
   constructor
   intro r
@@ -185,7 +193,7 @@ macro "sim" hc:ident : tactic => `(tactic|
   repeat' (first
     | apply Sim.bind | apply Sim.len $hc | apply Sim.readU8 $hc | apply Sim.readU16 $hc | apply Sim.readU32 $hc
     | apply Sim.readU64 $hc | apply Sim.skip $hc | apply Sim.readBytes $hc | apply Sim.readBytesOrEmpty $hc
-    | apply Sim.inSub $hc | apply Sim.ite | apply Sim.pure | apply Sim.fail | intro _ | split))
+    | apply Sim.inSub $hc | apply Sim.subM | apply Sim.ite | apply Sim.pure | apply Sim.fail | intro _ | split))
 
 section
 variable {ρ : Type} [Rdr ρ] {abs : ρ → Bytes} (hc : Conforms ρ abs)
